@@ -550,7 +550,7 @@ fn g_hash(g: &mut G) -> Hash256 { g.h() }
 fn g_locator(g: &mut G) -> BlockLocator { let n = g.cnt(); BlockLocator { version: g.u32(), block_locator_hashes: g.list(n, g_hash), hash_stop: g.h() } }
 fn g_nodeaddr(g: &mut G) -> NodeAddr { let mut ip = [0u8; 16]; for b in ip.iter_mut() { *b = g.r.byte(); } if g.r.chance(1, 4) { ip = UNKNOWN_IP; } NodeAddr { services: g.u64(), ip: Ipv6Addr::from(ip), port: g.u16() } }
 fn g_nodeaddrex(g: &mut G) -> NodeAddrEx { NodeAddrEx { last_connected_time: g.u32(), addr: g_nodeaddr(g) } }
-fn g_assoc(g: &mut G, allow_empty: bool) -> Vec<u8> { let n = *g.r.pick(&[1usize, 1, 2, 16, 17, 128, 129, 254, 255]); let n = if allow_empty && g.r.chance(1, 2) { 0 } else { n }; g.bytes(n) }
+fn g_assoc(g: &mut G, allow_empty: bool) -> Vec<u8> { let n = *g.r.pick(&[1usize, 1, 2, 16, 17, 128, 129, 252, 253, 254, 255]); let n = if allow_empty && g.r.chance(1, 2) { 0 } else { n }; g.bytes(n) }
 fn g_version(g: &mut G) -> Version {
     let version = match g.r.below(8) { 0 => MIN_SUPPORTED_PROTOCOL_VERSION, 1 => MIN_SUPPORTED_PROTOCOL_VERSION - 1, 2 => PROTOCOL_VERSION, 3 => g.u32(), _ => 70001 + g.r.below(100) as u32 };
     Version { version, services: g.u64(), timestamp: g.i64(), recv_addr: g_nodeaddr(g), tx_addr: g_nodeaddr(g), nonce: g.u64(), user_agent: g.string(),
